@@ -19,12 +19,15 @@ RULES = {
         "one read (get/get_preset/get_alphabet/translation) after a fired fault (rejected update or "
         "effective caller-side mutation). Distinct = distinct SHA-256 digest of (op list, all results)."),
     "schedsim": (
-        "One case = one seeded schedule: 2-4 real threads x 1-4 translation calls on colliding inputs, in a "
-        "child forked from a pristine (cold-cache) zygote, every selfies bytecode/line a pre-emption point "
-        "decided by the run's PRNG. Non-trivial = at least two threads were inside a call at the same time "
-        "and at least one context switch happened while the pre-empted thread was inside a shared-state "
-        "window (symbol-cache miss path, capacity lookup, ring/kekulization bookkeeping). Distinct = "
-        "distinct SHA-256 digest of (workload, switch list with code location)."),
+        "One case = one seeded schedule: 2-4 (thorough: up to 6) real threads x 1-4 translation calls on colliding "
+        "inputs (feature-themed corpus per batch of 16 runs), optionally after a rejected configuration update in "
+        "the set-up phase, in a child forked from a pristine (cold-cache) zygote; every selfies bytecode (or source "
+        "line) is a pre-emption point decided by the run's PRNG under one of the policies random / window / pct / "
+        "stall / shared. Non-trivial = at least two threads were inside a call at the same time and at least one "
+        "context switch happened while the pre-empted thread was inside a shared-state window (a function of the "
+        "fixed list that touches shared or call-spanning state on the current tree, or a 'hot' function of a "
+        "salted window run). Distinct = distinct SHA-256 digest of (table, per-thread call lists, full switch "
+        "list with code location)."),
 }
 
 COMPONENTS = {
